@@ -10,9 +10,11 @@ from ..tlaparse import to_json
 VALUE_LIMIT = 5
 VALUES = {'short_str': 'abc', 'long_str': 'abcdefghij', 'int': 7, 'bool': True, 'float': 1.5, 'bytes_ok': b'xyz',
           'bytes_bad': b'\xff\xfe', 'seq_same': ['a', 'b'], 'seq_none': ['a', None], 'seq_mixed': ['a', 1],
-          'seq_badtype': [{'x': 1}], 'dict_value': {'a': 1}, 'none_value': None}
+          'seq_badtype': [{'x': 1}], 'dict_value': {'a': 1}, 'none_value': None,
+          'zero_int': 0, 'false_bool': False, 'empty_str': '', 'empty_seq': []}
 STORED = {'short_str': 'abc', 'cut_str': 'abcde', 'int': 7, 'bool': True, 'float': 1.5, 'decoded_str': 'xyz',
-          'tuple_same': ('a', 'b'), 'tuple_with_none': ('a', None)}
+          'tuple_same': ('a', 'b'), 'tuple_with_none': ('a', None), 'zero_int': 0, 'false_bool': False,
+          'empty_str': '', 'empty_tuple': ()}
 STORED_CLASS = {repr((type(v).__name__, v)): k for k, v in STORED.items()}
 KEYS = {'empty_key': '', 'nonstr_key': 5}
 ATTR_INVS = ['WithinCapacity', 'OnlyCleanValues', 'KeysUnique', 'EveryDropCounted']
@@ -104,16 +106,20 @@ def resource_case(srcs):
     try:
         env = srcs[0]
         pairs = ['%s=src1' % k for k in sorted(env['keys']) if k != 'svc']
+        if 'svc' in env['keys'] and env.get('blank'):
+            pairs.append('service.name=')
         os.environ.pop('DEEP_RESOURCE_ATTRIBUTES', None)
         os.environ.pop('DEEP_SERVICE_NAME', None)
         if pairs:
             os.environ['DEEP_RESOURCE_ATTRIBUTES'] = ','.join(pairs)
-        if 'svc' in env['keys']:
+        if 'svc' in env['keys'] and not env.get('blank'):
             os.environ['DEEP_SERVICE_NAME'] = 'src1'
         code = srcs[1]
-        res = Resource.create({real_key[k]: 'src2' for k in code['keys']}, code['schema'] or None)
+        res = Resource.create({real_key[k]: ('' if (k == 'svc' and code.get('blank')) else 'src2') for k in code['keys']},
+                              code['schema'] or None)
         for i, p in enumerate(srcs[2:], 3):
-            other = Resource({real_key[k]: 'src%d' % i for k in p['keys']}, p['schema'] or None)
+            other = Resource({real_key[k]: ('' if (k == 'svc' and p.get('blank')) else 'src%d' % i) for k in p['keys']},
+                             p['schema'] or None)
             before_a = dict(res.attributes), res.schema_url
             before_b = dict(other.attributes), other.schema_url
             merged = res.merge(other)
@@ -125,6 +131,8 @@ def resource_case(srcs):
             v = res.attributes.get(rk)
             if v is None:
                 owner[k] = 99
+            elif v == '':
+                owner[k] = max(i for i, sr in enumerate(srcs, 1) if k in sr['keys'])   # the blank value of its last giver
             elif isinstance(v, str) and v.startswith('src'):
                 owner[k] = int(v[3:])
             else:
@@ -153,9 +161,9 @@ def resource_case(srcs):
 
 
 def resource_leg(c, quick):
-    c.mc('ResourceMerge', dict(constants=dict(NPlugins=2), invariants=['ServiceNameAlways', 'LaterWins'],
+    c.mc('ResourceMerge', dict(constants=dict(NPlugins=2), invariants=['ServiceNameAlways', 'ServiceNameNotBlankAfterCreate', 'LaterWins'],
                                deadlock=False), label='env, code, 2 plugins', must_cover=['Provide', 'MergeNext'])
-    sim = tlc.simulate('ResourceMerge', dict(constants=dict(NPlugins=2), invariants=['ServiceNameAlways', 'LaterWins'],
+    sim = tlc.simulate('ResourceMerge', dict(constants=dict(NPlugins=2), invariants=['ServiceNameAlways', 'ServiceNameNotBlankAfterCreate', 'LaterWins'],
                                              deadlock=False), num=150 if quick else 4000, depth=12, seed=c.seed + 8)
     c.transitions += sim.generated
     seen = set()
@@ -164,7 +172,7 @@ def resource_leg(c, quick):
         final = beh[-1][2]
         if final['pc'] != 5:
             continue
-        srcs = [{'keys': sorted(s['keys']), 'schema': s['schema']} for s in to_json(final['srcs'])]
+        srcs = [{'keys': sorted(s['keys']), 'schema': s['schema'], 'blank': s['blank']} for s in to_json(final['srcs'])]
         if str(srcs) in seen:
             continue
         seen.add(str(srcs))
